@@ -62,9 +62,37 @@ func raceAlphabet(name string) (f string, inits [][]tt.Op, ops []tt.Op, post []t
 
 var raceTypes = []string{"stack", "lstack", "queue", "lqueue", "heap", "bstree", "trie", "cache"}
 
+// raceSeqs: two-call sequences for the second thread - free a slot, then reuse it (and the reverse):
+// what a reader still holding an old view of the storage would collide with
+func raceSeqs(name string) [][]tt.Op {
+	tk := func(v int, s string) []int { return append([]int{v}, bytesOf(s)...) }
+	switch name {
+	case "stack", "lstack":
+		return [][]tt.Op{{fop("stack", "pop"), fop("stack", "push", 6)}, {fop("stack", "push", 6), fop("stack", "pop")}}
+	case "queue", "lqueue":
+		return [][]tt.Op{{fop("queue", "deq"), fop("queue", "enq", 6)}, {fop("queue", "enq", 6), fop("queue", "deq")}, {fop("queue", "clear"), fop("queue", "enq", 6)}}
+	case "heap":
+		return [][]tt.Op{{fop("heap", "pop"), fop("heap", "push", 6)}, {fop("heap", "push", 1), fop("heap", "pop")}, {fop("heap", "clear"), fop("heap", "push", 6)}, {fop("heap", "delete", 2), fop("heap", "push", 6)}}
+	case "bstree":
+		return [][]tt.Op{{fop("bstree", "delete", 2), fop("bstree", "upsert", 2, 8)}, {fop("bstree", "upsert", 4, 8), fop("bstree", "delete", 4)}}
+	case "trie":
+		return [][]tt.Op{{fop("trie", "put", tk(8, "a")...), fop("trie", "put", tk(9, "abc")...)}}
+	case "cache":
+		return [][]tt.Op{{fop("cache", "delete", 0), fop("cache", "set", 0, 7, 0)}, {fop("cache", "flush"), fop("cache", "set", 0, 7, 0)}, {fop("cache", "update", 0, 7, 0), fop("cache", "delete", 0)}}
+	}
+	return nil
+}
+
 func racePrograms(name string, triples bool) []concProg {
 	_, inits, ops, post := raceAlphabet(name)
 	var out []concProg
+	for _, init := range inits {
+		for _, a := range ops {
+			for _, sq := range raceSeqs(name) {
+				out = append(out, concProg{Ty: name, Init: init, Threads: [][]tt.Op{{a}, sq}, Post: post})
+			}
+		}
+	}
 	for _, init := range inits {
 		for i, a := range ops {
 			for j := i; j < len(ops); j++ {
